@@ -526,7 +526,6 @@ Varable failures: {var_failed}
 
         # Update TFLAG, SDATE, STIME and TSTEP
         if 'TSTEP' in kwds:
-            import datetime
             times = np.atleast_1d(self.getTimes()[kwds['TSTEP']])
             outf.SDATE = int(times[0].strftime('%Y%j'))
             outf.STIME = int(times[0].strftime('%H%M%S'))
@@ -534,9 +533,10 @@ Varable failures: {var_failed}
                 dt = np.diff(times)
                 if not (dt[0] == dt).all():
                     warn('New time is unstructured')
-                outf.TSTEP = int(
-                    (datetime.datetime(1900, 1, 1, 0) +
-                     dt[0]).strftime('%H%M%S'))
+                # HHMMSS may have more than 24 hours
+                secs = int(dt[0].total_seconds())
+                outf.TSTEP = (secs // 3600 * 10000 + secs % 3600 // 60 * 100 +
+                              secs % 60)
 
         outf.updatemeta()
         return outf
